@@ -962,6 +962,105 @@ fn run_set_twice(c: &mut Ctx) {
     }
 }
 
+/// cross-setter consistency of the hour fields, exhaustively (theorems hour_setters_consistent /
+/// hour_setters_consistent_conv): after `set_hour(h)`, `set_ampm(pm)` is accepted iff `pm == (h >= 12)` and
+/// `set_hour12(v)` iff `v` is the 12-hour-clock reading of `h`; conversely after `set_ampm` + `set_hour12`,
+/// `set_hour(h)` is accepted iff `h` is that hour; an accepted call leaves the record unchanged
+fn run_hour_cross(c: &mut Ctx) {
+    let outcome = |r: &ParseResult<()>, p: &Parsed| match r {
+        Ok(()) => format!("ok {}", dump_parsed(p)),
+        Err(e) => format!("err {}", err_kind(e)),
+    };
+    for h in -1i64..=24 {
+        let mut p1 = Parsed::new();
+        let r1 = p1.set_hour(h);
+        c.op(&format!("pr.set hour {} {}", h, dump_parsed(&Parsed::new())), &outcome(&r1, &p1));
+        if r1.is_ok() != (0..=23).contains(&h) {
+            c.fail("set_hour: accepted range is not 0..=23", &format!("{}", h));
+        }
+        if r1.is_err() {
+            continue;
+        }
+        let mid = dump_parsed(&p1);
+        for pm in [false, true] {
+            let mut p2 = p1.clone();
+            let r2 = p2.set_ampm(pm);
+            let s2 = outcome(&r2, &p2);
+            c.op(&format!("pr.set ampm {} {}", pm as i64, mid), &s2);
+            let want = if pm == (h >= 12) { format!("ok {}", mid) } else { "err Impossible".to_string() };
+            c.count("hourcross:ampm-after-hour");
+            if s2 != want {
+                c.fail("set_ampm after set_hour: accepted iff it is the half of the day of the hour", &format!("hour {} then pm {} -> {} (expected {})", h, pm, s2, want));
+            }
+        }
+        for v in 0i64..=13 {
+            let mut p2 = p1.clone();
+            let r2 = p2.set_hour12(v);
+            let s2 = outcome(&r2, &p2);
+            c.op(&format!("pr.set hour12 {} {}", v, mid), &s2);
+            let want = if !(1..=12).contains(&v) {
+                "err OutOfRange".to_string()
+            } else if v % 12 == h % 12 {
+                format!("ok {}", mid)
+            } else {
+                "err Impossible".to_string()
+            };
+            c.count("hourcross:hour12-after-hour");
+            if s2 != want {
+                c.fail("set_hour12 after set_hour: accepted iff it is the 12-hour-clock reading of the hour", &format!("hour {} then hour12 {} -> {} (expected {})", h, v, s2, want));
+            }
+        }
+    }
+    for pm in [false, true] {
+        for v in 1i64..=12 {
+            let mut p2 = Parsed::new();
+            p2.set_ampm(pm).unwrap();
+            p2.set_hour12(v).unwrap();
+            let mid = dump_parsed(&p2);
+            for h in -1i64..=24 {
+                let mut p3 = p2.clone();
+                let r3 = p3.set_hour(h);
+                let s3 = outcome(&r3, &p3);
+                c.op(&format!("pr.set hour {} {}", h, mid), &s3);
+                let want = if !(0..=23).contains(&h) {
+                    "err OutOfRange".to_string()
+                } else if h == (if pm { 12 } else { 0 }) + v % 12 {
+                    format!("ok {}", mid)
+                } else {
+                    "err Impossible".to_string()
+                };
+                c.count("hourcross:hour-after-ampm-hour12");
+                if s3 != want {
+                    c.fail("set_hour after set_ampm and set_hour12: accepted iff it is the hour they denote", &format!("pm {} hour12 {} then hour {} -> {} (expected {})", pm, v, h, s3, want));
+                }
+            }
+            // the resolved time has that hour
+            p2.set_minute(0).unwrap();
+            let want_h = (if pm { 12 } else { 0 }) + (v % 12) as u32;
+            if p2.to_naive_time().map(|t| t.hour()) != Ok(want_h) {
+                c.fail("to_naive_time: hour is not the one denoted by am/pm and the 12-hour clock", &format!("pm {} hour12 {}", pm, v));
+            }
+        }
+    }
+    // Parsed::new() / default: NotEnough everywhere (theorem new_resolves_not_enough)
+    {
+        let p = Parsed::default();
+        let all_ne = p.to_naive_date().map_err(|e| err_kind(&e)) == Err("NotEnough".into())
+            && p.to_naive_time().map_err(|e| err_kind(&e)) == Err("NotEnough".into())
+            && p.to_naive_datetime_with_offset(0).map_err(|e| err_kind(&e)) == Err("NotEnough".into())
+            && p.to_naive_datetime_with_offset(i32::MIN).map_err(|e| err_kind(&e)) == Err("NotEnough".into())
+            && p.to_fixed_offset().map_err(|e| err_kind(&e)) == Err("NotEnough".into())
+            && p.to_datetime().map_err(|e| err_kind(&e)) == Err("NotEnough".into())
+            && p.to_datetime_with_timezone(&chrono::Utc).map_err(|e| err_kind(&e)) == Err("NotEnough".into())
+            && p.to_datetime_with_timezone(&FixedOffset::east_opt(-3600).unwrap()).map_err(|e| err_kind(&e)) == Err("NotEnough".into())
+            && dump_parsed(&p) == dump_parsed(&Parsed::new());
+        c.count("new:not-enough");
+        if !all_ne {
+            c.fail("Parsed::new() / default must be NotEnough for every resolver", "");
+        }
+    }
+}
+
 // ---- a time zone with one transition -----------------------------------------------------------
 /// Offset `o1` (seconds east) for every instant before `t` (seconds since the epoch), `o2` from `t`
 /// on: `o1 > o2` gives a fold of `o1 - o2` seconds, `o1 < o2` a gap.  The Lean model is
@@ -1563,5 +1662,6 @@ pub fn run(c: &mut Ctx) {
     }
 
     run_set_twice(c);
+    run_hour_cross(c);
     run_step_zones(c);
 }
